@@ -387,7 +387,10 @@ fn build_source(s: &Src, index: usize, guards: &mut Vec<TmpGuard>) -> Result<(Bu
 		}
 	};
 	let p = path.to_str().unwrap().to_string();
-	let explicit = format!("{}{}", IDS[s.id as usize % IDS.len()], index);
+	// ids of one server: usually unrelated; with id 0 or 1 of the pool every id is a proper string
+	// prefix of the next one (a, a0, a01 / tiles, tiles0, tiles01)
+	let base = IDS[s.id as usize % IDS.len()];
+	let explicit = if (s.id as usize % IDS.len()) < 2 && s.id_style % 4 != 3 { format!("{base}{}", &"012"[..index.min(3)]) } else { format!("{base}{index}") };
 	let (arg, id) = match s.id_style % 4 {
 		0 => (format!("{p}[{explicit}]"), explicit),
 		1 => (format!("[{explicit}]{p}"), explicit),
